@@ -119,20 +119,42 @@ def sentinel(d):
     return "ProbeTerm"
 
 
-def predict(d):
+# The part of CLASSES that the documentation of the interpretations fixes (eager evaluates tensors, lazy and reflect
+# build the term); the remaining entries (symbolic operands, normalize) describe rewrite rules that are not C17's
+# business: the harness may re-calibrate them under a single `with K:` block (see calibrated()).
+CORE = tuple((k, p) for k in ("eager", "sequential", "moment_matching", "lazy", "reflect") for p in ("tt", "red"))
+SUBST_RAISES = {k: k != "reflect" for k in TOTALS}  # reflect alone performs no substitution
+
+
+def calibrated(observed):
+    """CLASSES with the non-CORE entries replaced by what was observed under each total interpretation alone.
+    -> (table, [CORE entries where the observation contradicts the documentation])."""
+    table = {k: dict(v) for k, v in CLASSES.items()}
+    bad = []
+    for k, row in observed.items():
+        for p, label in row.items():
+            if (k, p) in CORE:
+                if table[k][p] != label:
+                    bad.append((k, p, table[k][p], label))
+            else:
+                table[k][p] = label
+    return table, bad
+
+
+def predict(d, classes=None):
     """Expected labels of the four probe terms under entry d, in PROBES order."""
-    c = CLASSES[kind(d)]
+    c = (classes or CLASSES)[kind(d)]
     return (c["tt"], c["red"], c["xy"], sentinel(d))
 
 
-def subst_raises(d):
+def subst_raises(d, table=None):
     """Is a substitution carried out (so the booby-trapped eager_subs raises) when Subs is built under d?"""
-    return kind(d) != "reflect"
+    return (table or SUBST_RAISES)[kind(d)]
 
 
-def tapefwd_raises(d):
+def tapefwd_raises(d, table=None):
     """forward_backward enters a fresh AdjointTape over d and rebuilds the booby-trapped Subs."""
-    return kind(d) != "reflect" or len(flat(d)) + 1 >= OVERFLOW
+    return (table or SUBST_RAISES)[kind(d)] or len(flat(d)) + 1 >= OVERFLOW
 
 
 def name(d):
